@@ -17,15 +17,27 @@ PROFILES = [
 ]
 
 
-def transforms(rng, n):
-    """(name, map) pairs: agent j of the transformed batch is agent map[j] of the reference batch."""
+def transforms(rng, n, init=None):
+    """(name, map) pairs: agent j of the transformed batch is agent map[j] of the reference batch.
+    With restricted states in the model: additionally one agent of every distinct combination of restricted states alone
+    (batches whose data state-choice space is complete / incomplete / of another size than the reference batch's)."""
     perm = list(range(n))
     rng.shuffle(perm)
     k = rng.randrange(1, n + 1)
     subset = sorted(rng.sample(range(n), k))
     rng.shuffle(subset)
     dup = [rng.randrange(n) for _ in range(n + 2)]
-    return [("permuted", perm), ("subset", subset), ("subset", [rng.randrange(n)]), ("duplicated", dup), ("key-order", list(range(n)))]
+    out = [("permuted", perm), ("subset", subset), ("subset", [rng.randrange(n)]), ("duplicated", dup), ("key-order", list(range(n)))]
+    if init and "r" in init:
+        first = {}
+        for j in range(n):
+            first.setdefault((init["r"][j], init.get("q", [0] * n)[j]), j)
+        singles = [[j] for j in sorted(first.values())][:4]
+        out += [("subset", s1) for s1 in singles if ("subset", s1) not in out]
+        if len(first) >= 2:      # all agents of one restricted state together (a batch with equally long segments)
+            k0 = next(iter(first))
+            out.append(("subset", [j for j in range(n) if (init["r"][j], init.get("q", [0] * n)[j]) == k0]))
+    return out
 
 
 def make_specs(ctx: Ctx, n):
@@ -40,7 +52,7 @@ def make_specs(ctx: Ctx, n):
         seed = rng.randrange(10**6)
         target = "solve_and_simulate" if i % 2 else "simulate"
         plan = [{"op": "simulate", "target": target, "init": qinit(init), "seed": seed, "vsrc": "own"}]
-        for what, mp in transforms(rng, na):
+        for what, mp in transforms(rng, na, init):
             init2 = {k: [v[j] for j in mp] for k, v in init.items()}
             step = {"op": "simulate", "target": target, "init": qinit(init2), "seed": seed, "vsrc": "own"}
             if what == "key-order":
